@@ -225,6 +225,8 @@ for _m, _d in (('visit_shell', DRIVER_SHELL), ('visit_executable_file', DRIVER_F
                raises_only=())
 
 M.contract(P_CMDS + ':CommandDriverVisitor.visit', inline=True,
+           # default branch for an unknown driver class: dead for the closed set of the three driver classes
+           cover=('raise TypeError',),
            params=dict(self=TRANSLATOR, value=DRIVER), ghosts=dict(j=Int),
            ensures={'dispatches-on-the-driver: denoted-argv': lambda self, value, result, j:
            denotes(value, self.arguments, result._is_shell, result._arg_list_or_str, j)},
@@ -1076,6 +1078,8 @@ M.contract(P_ATC + ':ActionToCheckExecutor._do_execute', inline=True,
 from exactly_lib.impls.instructions.assert_.process_output.impl.exit_code import getter_from_atc
 
 M.contract('exactly_lib.impls.instructions.assert_.process_output.impl.exit_code.getter_from_atc:_ExitCodeGetter._get_exit_code',
+           # failing open()/read() of result/exit-code are environmental faults that the file model does not produce
+           cover=('raise HardErrorException',),
            params=dict(self=Inst(getter_from_atc._ExitCodeGetter, _tcds=Iface(TcdsI), _sds=Iface(SdsI))),
            ghosts=dict(n=Int), returns=Int,
            ensures={
